@@ -18,8 +18,9 @@ use crate::statics::typecheck::Nominal;
 use crate::statics::typecheck::{Prov, SolvedType};
 use crate::statics::{Declaration, PolytypeDeclaration};
 use crate::statics::{FuncResolutionKind, Type};
-use crate::vm::{AbraInt, Instr as VmInstr};
+use crate::vm::{AbraInt, CallData, Instr as VmInstr};
 use crate::{
+    ErrorSummary,
     ast::{Expr, ExprKind, Pat, PatKind, Stmt, StmtKind},
     statics::StaticsContext,
 };
@@ -34,6 +35,11 @@ use utils::swrite;
 
 type OffsetTable = HashMap<NodeId, i16>;
 type MonomorphEnv = Environment<PolytypeDeclaration, Type>;
+
+// the largest count an instruction operand of 16 bits can hold
+const MAX_COUNT: usize = u16::MAX as usize;
+// the most stack slots that 16-bit signed offsets from the frame's base can address
+const MAX_LOCALS: usize = i16::MAX as usize;
 pub(crate) type LabelMap = HashMap<Label, usize>;
 
 #[derive(Debug, Clone, PartialOrd, Ord, PartialEq, Eq, Hash)]
@@ -116,6 +122,8 @@ pub(crate) struct TranslatorState {
     funcs_to_generate: Vec<FuncDesc>,
     loop_stack: Vec<EnclosingLoop>,
     return_stack: Vec<u32>,
+    // counts that do not fit the operand that has to hold them
+    limit_errors: Vec<String>,
 
     pub(crate) curr_file: u32,
     pub(crate) curr_func: u32,
@@ -219,6 +227,19 @@ impl Translator {
         self.statics.solution_of_node(node).map(|t| t.subst(mono))
     }
 
+    // A count that becomes an instruction operand. One that exceeds what the operand can hold is
+    // reported as a compile error (see `translate`) instead of being truncated.
+    fn count_operand(&self, st: &mut TranslatorState, n: usize, max: usize, what: &str) -> u16 {
+        if n > max {
+            let file = self.statics.file_db.files[st.curr_file as usize].name();
+            st.limit_errors.push(format!(
+                "{file}:{}: too many {what}: {n}, the limit is {max}",
+                st.curr_lineno
+            ));
+        }
+        n.min(max) as u16
+    }
+
     fn emit(&self, st: &mut TranslatorState, i: impl LineVariant) {
         let l: Line = i.to_line(st);
 
@@ -298,8 +319,14 @@ impl Translator {
         st.curr_func = function_name_id;
     }
 
-    pub(crate) fn translate(&self) -> CompiledProgram {
+    pub(crate) fn translate(&self) -> Result<CompiledProgram, ErrorSummary> {
         let mut st = self.translate_to_assembly();
+        if !st.limit_errors.is_empty() {
+            return Err(ErrorSummary {
+                msg: st.limit_errors.join("\n"),
+                more: None,
+            });
+        }
 
         // (the expansion leaves every constant at its place in the pool)
         let constants = gather_constants(&st.lines);
@@ -311,7 +338,7 @@ impl Translator {
         for file_data in self.statics.file_db.files.iter() {
             filename_arena.push(file_data.name().to_string());
         }
-        CompiledProgram {
+        Ok(CompiledProgram {
             instructions,
             int_constants: constants.int_constants.into_iter().collect(),
             float_constants: constants
@@ -344,7 +371,7 @@ impl Translator {
                     })
                     .collect()
             },
-        }
+        })
     }
 
     pub(crate) fn dump_assembly(&self) {
@@ -388,7 +415,9 @@ impl Translator {
                     .collect();
                 self.collect_locals_stmts(&stmts, &mut locals, &mono);
 
-                self.emit(st, Instr::PushNil(locals.len() as u16));
+                // (locals are addressed with 16-bit signed offsets)
+                let nlocals = self.count_operand(st, locals.len(), MAX_LOCALS, "local variables");
+                self.emit(st, Instr::PushNil(nlocals));
                 let mut offset_table = OffsetTable::default();
                 for (offset, node_id) in locals.iter().enumerate() {
                     offset_table.entry(node_id.id()).or_insert(offset as i16);
@@ -504,8 +533,10 @@ impl Translator {
                             let nargs =
                                 arg_tys.iter().filter(|ty| **ty != SolvedType::Void).count();
                             self.wrapper_header(st, nargs, true);
+                            let nfields =
+                                self.count_operand(st, nargs, MAX_LOCALS, "struct fields");
                             match struct_def {
-                                Some(_) => self.emit(st, Instr::ConstructStruct(nargs as u16)),
+                                Some(_) => self.emit(st, Instr::ConstructStruct(nfields)),
                                 None => self.emit(st, Instr::ConstructChannel),
                             }
                             self.emit(st, Instr::Return(nargs as u32));
@@ -535,7 +566,10 @@ impl Translator {
 
         let (arg_ids, captures, locals) =
             self.calculate_args_captures_locals(&desc.overload_ty, args, body, &mono);
-        self.emit(st, Instr::PushNil(locals.len() as u16));
+        let nslots = captures.len() + locals.len();
+        self.count_operand(st, nslots, MAX_LOCALS, "local variables and captures");
+        self.count_operand(st, arg_ids.len(), MAX_LOCALS, "parameters");
+        self.emit(st, Instr::PushNil(locals.len().min(MAX_LOCALS) as u16));
         let mut offset_table = OffsetTable::default();
         for (index, arg_id) in arg_ids.iter().enumerate() {
             offset_table
@@ -983,7 +1017,7 @@ impl Translator {
                 for expr in exprs {
                     self.translate_expr(expr, offset_table, mono, st);
                 }
-                let mut nargs = 0;
+                let mut nargs: usize = 0;
                 for expr in exprs {
                     // TODO: duplicated logic
                     let expr_ty = self.get_ty(mono, expr.node()).unwrap();
@@ -991,6 +1025,7 @@ impl Translator {
                         nargs += 1;
                     }
                 }
+                let nargs = self.count_operand(st, nargs, MAX_COUNT, "tuple elements");
                 self.emit(st, Instr::ConstructStruct(nargs));
             }
             ExprKind::IfElse(cond, then_block, else_block) => {
@@ -1035,15 +1070,28 @@ impl Translator {
                 }
             }
             ExprKind::Array(exprs) => {
-                for expr in exprs {
+                // arrays of void use dummy values
+                let elems_are_void = exprs.first().is_some_and(|expr| {
+                    self.get_ty(mono, expr.node()).unwrap() == SolvedType::Void
+                });
+                // ConstructArray counts its elements with 16 bits: a longer literal is built from
+                // that many elements and the remaining ones are pushed onto it, in order
+                let (first, rest) = exprs.split_at(exprs.len().min(MAX_COUNT));
+                for expr in first {
                     self.translate_expr(expr, offset_table, mono, st);
                 }
-                if let Some(expr) = exprs.first()
-                    && self.get_ty(mono, expr.node()).unwrap() == SolvedType::Void
-                {
-                    self.emit(st, Instr::PushNil(exprs.len() as u16));
+                if elems_are_void {
+                    self.emit(st, Instr::PushNil(first.len() as u16));
                 }
-                self.emit(st, Instr::ConstructArray(exprs.len() as u16));
+                self.emit(st, Instr::ConstructArray(first.len() as u16));
+                for expr in rest {
+                    self.emit(st, Instr::Duplicate);
+                    self.translate_expr(expr, offset_table, mono, st);
+                    if elems_are_void {
+                        self.emit(st, Instr::PushNil(1));
+                    }
+                    self.emit(st, Instr::ArrayPush(Reg::Top, Reg::Top));
+                }
             }
             ExprKind::IndexAccess(array, index) => {
                 let lhs_ty = self.get_ty(mono, array.node()).unwrap();
@@ -1178,7 +1226,8 @@ impl Translator {
                     self.emit(st, Instr::LoadOffset(*offs));
                 }
 
-                self.emit(st, Instr::MakeClosure(captures.len() as u16));
+                let ncaptures = self.count_operand(st, captures.len(), MAX_LOCALS, "captures");
+                self.emit(st, Instr::MakeClosure(ncaptures));
             }
             ExprKind::TaskBlock(body) => {
                 /*
@@ -1224,7 +1273,8 @@ impl Translator {
                     self.emit(st, Instr::LoadOffset(*offs));
                 }
 
-                self.emit(st, Instr::SpawnTask(captures.len() as u16, label.clone()));
+                let ncaptures = self.count_operand(st, captures.len(), MAX_LOCALS, "captures");
+                self.emit(st, Instr::SpawnTask(ncaptures, label.clone()));
             }
             ExprKind::Unwrap(inner_expr) => {
                 self.translate_expr(inner_expr, offset_table, mono, st);
@@ -1582,7 +1632,7 @@ impl Translator {
             }
             Declaration::Struct(_) => {
                 // TODO: logic is duplicated for enums below
-                let mut nargs = 0;
+                let mut nargs: usize = 0;
                 let SolvedType::Function(args, _) = self.get_ty(mono, func_node).unwrap() else {
                     unreachable!()
                 };
@@ -1596,10 +1646,11 @@ impl Translator {
                         }
                     }
                 }
+                let nargs = self.count_operand(st, nargs, MAX_COUNT, "struct fields");
                 self.emit(st, Instr::ConstructStruct(nargs));
             }
             Declaration::EnumVariant { e: _, variant } => {
-                let mut nargs = 0;
+                let mut nargs: usize = 0;
                 let SolvedType::Function(args, _) = self.get_ty(mono, func_node).unwrap() else {
                     unreachable!()
                 };
@@ -1616,6 +1667,7 @@ impl Translator {
                 }
                 if nfields > 1 {
                     // several fields are stored as a tuple, which omits the void ones
+                    let nargs = self.count_operand(st, nargs, MAX_COUNT, "variant fields");
                     self.emit(st, Instr::ConstructStruct(nargs));
                 } else if nargs == 0 {
                     self.emit(st, Instr::PushNil(1)); // TODO: optimize this away
@@ -2785,7 +2837,16 @@ impl Translator {
                     mono,
                 );
                 let nargs = args.len();
-                self.emit(st, Instr::Call(nargs, label));
+                if nargs <= CallData::MAX_NARGS {
+                    self.emit(st, Instr::Call(nargs, label));
+                } else {
+                    // the call instruction has no room for that many arguments: call the
+                    // function through a function object instead
+                    self.count_operand(st, nargs, MAX_LOCALS, "arguments");
+                    self.emit(st, Instr::PushAddr(label));
+                    self.emit(st, Instr::MakeClosure(0));
+                    self.emit(st, Instr::CallFuncObj(nargs as u32));
+                }
             }
         }
     }
